@@ -9,6 +9,7 @@ CONSTANTS
   LeafVals <- MC_LeafVals
   UnOps <- MC_UnOps
   BinOps <- MC_BinOps
+  CtorShapes <- MC_CtorShapes
 VIEW View
 CONSTRAINT Bounded
 INVARIANTS C01_Total C08_Frame C08_Retire C08_Shape
